@@ -626,7 +626,11 @@ class Checker:
 
 	def payload(self, network, seed, buffer, transaction):
 		facade = self.impl.facade(network, seed)
-		answer = facade.extract_signing_payload(transaction)
+		try:
+			answer = facade.extract_signing_payload(transaction)
+		except Exception as ex:  # pylint: disable=broad-except
+			# the implementation cannot even produce the payload of a transaction it built itself
+			answer = f'{type(ex).__name__}: {ex}'.encode('utf8')
 		if 'nem' == network:
 			required = self.layout.nem_payload(buffer)
 			line = f'payload_nem {hx(buffer)}'
@@ -754,6 +758,20 @@ def _sample_bits(rng, count, width):
 
 
 def _transaction_round(checker, rng, network, all_bits=False):
+	"""One key pair x one transaction; an exception escaping from the SDK on a transaction it built itself is a failure of the property
+	(the signature cannot even be produced), reported with the transaction kind as the concrete input."""
+	try:
+		_transaction_round_body(checker, rng, network, all_bits)
+	except Exception as ex:  # pylint: disable=broad-except
+		import traceback
+		frames = traceback.extract_tb(ex.__traceback__)
+		inside_sdk = any('/symbolchain/' in frame.filename for frame in frames)
+		checker.ctx.fail(
+			'property' if inside_sdk else 'corr', f'{network}: the SDK raises while signing / verifying a transaction it built: {type(ex).__name__}: {ex}',
+			{'network': network, 'trace': traceback.format_exc(limit=8)[-1200:]})
+
+
+def _transaction_round_body(checker, rng, network, all_bits=False):
 	"""One key pair x one transaction: payload, signature, verification, perturbations."""
 	ctx = checker.ctx
 	impl = checker.impl
